@@ -371,7 +371,10 @@ class Bicomplex(object):
         return (self + (self ** 2 - 1) ** 0.5).log()
 
     def arcsinh(self):
-        return (self + (self ** 2 + 1) ** 0.5).log()
+        # z + sqrt(z**2 + 1) cancels for negative real part: use arcsinh(-z) = -arcsinh(z)
+        sign = np.where(self.z1.real < 0, -1.0, 1.0)
+        z = self * sign
+        return (z + (z ** 2 + 1) ** 0.5).log() * sign
 
     def arctanh(self):
         return 0.5 * (((1 + self) / (1 - self)).log())
